@@ -78,7 +78,7 @@ PROPS = {
          'monitor_props': ['C06'], 'rule': BRIDGE_RULE + ' ; ' + LOCKING_RULE,
          'partial': 'the payload-level check (VerifyDequeue / unfinalised proposals consume nothing / restarts) is exercised at application level by C08/C09 checks'},
  'C16': {'runs': bridge('C16', ops=60), 'monitor_props': ['C16'], 'rule': BRIDGE_RULE, 'assumptions': SYMBOLIC,
-         'partial': 'the full group invariant (proposer not a voter, members distinct with activated/off-boarding records) and totality of the election step are checked by the implementation-side monitor on every history and by the model comparison; their inductive Coq proof is not finished'},
+         'partial': ''},
  'C15': {'runs': locking('C15', blocks=18), 'monitor_props': ['C15'], 'rule': LOCKING_RULE + '; unlock / exit durations 10..90 s with block-time jumps over them',
          'partial': 'step-level theorems (queued at now+delay, released only when key <= now, in key order, FIFO hand-over); the end-to-end delay over whole histories is checked by the implementation-side monitor, not yet by an inductive Coq theorem',
          'assumptions': ['block times non-decreasing (CometBFT BFT time)', 'ExitingDuration >= UnlockDuration (Params.Validate)']},
